@@ -231,7 +231,8 @@ def classify(diags, raw, sm, woven_src):
                     f["clause"] = e["meta"]["clause"]
         cl = sm.meta["clauses"].get(f["clause"]) if f["clause"] else None
         f["clause_name"] = cl.get("name") if cl else None
-        if f["unit"] is None and cl:
+        if cl:
+            # the clause knows its unit; the position of the diagnostic may lie in a segment that was moved out of it
             f["unit"] = cl["unit"]
         if f["unit"] is None:
             # a failure outside every unit: a vocabulary lemma or prelude helper (pure ghost code)
